@@ -33,6 +33,7 @@ import (
 	"strings"
 
 	"github.com/Ptt-official-app/go-pttbbs/bbs"
+	"github.com/Ptt-official-app/go-pttbbs/cache"
 	"github.com/Ptt-official-app/go-pttbbs/cmbbs"
 	"github.com/Ptt-official-app/go-pttbbs/ptt"
 	"github.com/Ptt-official-app/go-pttbbs/ptttype"
@@ -95,6 +96,25 @@ func parseI32(s string) (int32, bool) {
 	return int32(v), true
 }
 
+// parseHex: "-" or an even number of lowercase/uppercase hex digits, at most max bytes; never nil
+func parseHex(s string, max int) ([]byte, bool) {
+	if s == "-" {
+		return []byte{}, true
+	}
+	if len(s)%2 != 0 || len(s) > 2*max {
+		return nil, false
+	}
+	out := make([]byte, 0, len(s)/2)
+	for i := 0; i < len(s); i += 2 {
+		v, err := strconv.ParseUint(s[i:i+2], 16, 8)
+		if err != nil || strings.ContainsAny(s[i:i+2], "+-") {
+			return nil, false
+		}
+		out = append(out, byte(v))
+	}
+	return out, true
+}
+
 func parseBool(s string) (bool, bool) {
 	switch s {
 	case "0":
@@ -116,6 +136,8 @@ type callArgs struct {
 	over18            bool
 	uid               ptttype.UID
 	bmc, friend, name bool
+	busy              bool   // xreadb: Shm.BBusyState raised during the call
+	rawID, rawBM      []byte // nlist: user id and moderator string byte for byte (nil otherwise)
 }
 
 func nameOf(bid ptttype.Bid) *ptttype.BoardID_t {
@@ -455,7 +477,19 @@ func exec(line string) (out, label string, nontrivial bool, fails []fail) {
 		setBoard(ptttype.Bid(bid), attr, level)
 		boardsSet[ptttype.Bid(bid)] = true
 		return "ok", "setb", false, nil
-	case "xread":
+	case "nlist":
+		// nlist <fn> <bid> <ulevel> <over18> <uid> <bmcache> <friend> <idhex> <bmhex>
+		if len(ws) != 10 || *layer == "bbs" || !isIn(ws[1], listFns) {
+			return bad()
+		}
+		id, ok1 := parseHex(ws[8], 13)
+		bm, ok2 := parseHex(ws[9], 39)
+		if !ok1 || !ok2 {
+			return bad()
+		}
+		rest := append(append([]string{"list"}, ws[1:8]...), "0")
+		return execRead(rest, 0, false, id, bm)
+	case "xread", "xreadb":
 		if len(ws) != 10 || !isIn(ws[1], readEntries) {
 			return bad()
 		}
@@ -464,15 +498,15 @@ func exec(line string) (out, label string, nontrivial bool, fails []fail) {
 			return bad()
 		}
 		rest := append([]string{"read", ws[1], ws[2]}, ws[4:]...)
-		return execRead(rest, ptttype.Bid(nb))
+		return execRead(rest, ptttype.Bid(nb), ws[0] == "xreadb", nil, nil)
 	case "read", "list":
-		return execRead(ws, 0)
+		return execRead(ws, 0, false, nil, nil)
 	}
 	return bad()
 }
 
 // execRead: a read/list op; nameBid != 0 marks an xread (the name handed over is that board's).
-func execRead(ws []string, nameBid ptttype.Bid) (out, label string, nontrivial bool, fails []fail) {
+func execRead(ws []string, nameBid ptttype.Bid, busy bool, rawID, rawBM []byte) (out, label string, nontrivial bool, fails []fail) {
 	bad := func() (string, string, bool, []fail) { return "bad-op", "malformed", false, nil }
 	{
 		if len(ws) != 9 {
@@ -491,7 +525,7 @@ func execRead(ws []string, nameBid ptttype.Bid) (out, label string, nontrivial b
 		if ws[0] == "read" && !isIn(ws[1], readEntries) || ws[0] == "list" && !isIn(ws[1], listFns) {
 			return bad()
 		}
-		a := callArgs{nameBid: ptttype.Bid(bidv), bid: ptttype.Bid(bidv), ulevel: ulevel, over18: over18, uid: ptttype.UID(uidv), bmc: bmc, friend: friend, name: named}
+		a := callArgs{busy: busy, rawID: rawID, rawBM: rawBM, nameBid: ptttype.Bid(bidv), bid: ptttype.Bid(bidv), ulevel: ulevel, over18: over18, uid: ptttype.UID(uidv), bmc: bmc, friend: friend, name: named}
 		// a valid bid must have been configured in this history; the friend fact needs the account that can be listed
 		if nameBid != 0 {
 			// xread: both boards exist; the public control board is always configured (attr 0, level 0)
@@ -517,11 +551,14 @@ func execRead(ws []string, nameBid ptttype.Bid) (out, label string, nontrivial b
 
 func execCall(kind, entry string, a callArgs) (out, label string, nontrivial bool, fails []fail) {
 	opCount++
-	user := mkUser(a.ulevel, a.over18)
+	user := mkUser(a.ulevel, a.over18, a.rawID)
 	var f facts
 	known := a.bid.IsValid()
 	if known {
-		setRelation(a.bid, a.uid, a.bmc, a.friend, a.name, opCount/13)
+		setRelation(a.bid, a.uid, a.bmc, a.friend, a.name, opCount/13, a.rawBM)
+		if a.rawID != nil {
+			a.name = oracleNamed(a.rawID, a.rawBM) // the oracle's own reading of "named moderator"
+		}
 		attr, blevel := boardNow(a.bid)
 		f = facts{ulevel: a.ulevel, over18: a.over18, uid: int32(a.uid), attr: attr, blevel: blevel, bmCache: a.bmc, friend: a.friend, named: a.name}
 	}
@@ -532,6 +569,11 @@ func execCall(kind, entry string, a callArgs) (out, label string, nontrivial boo
 		}
 	}
 	var res string
+	if a.busy {
+		// the board table is marked busy (a reload / sort in another process) for the duration of the call
+		cache.Shm.Shm.BBusyState = 1
+		defer func() { cache.Shm.Shm.BBusyState = 0 }()
+	}
 	if kind == "read" {
 		res = hx.CallSync(func() string { return doRead(entry, a, user) })
 	} else {
@@ -563,11 +605,14 @@ func execCall(kind, entry string, a callArgs) (out, label string, nontrivial boo
 	}
 	if kind == "read" && a.nameBid != a.bid {
 		label = "xread:" + res + ":" + branch
+		if a.busy {
+			label = "xread-busy:" + res + ":" + branch
+		}
 		// the number and the name designate different boards
 		if *layer == "bbs" {
 			if res == "allow" {
-				fails = append(fails, fail{"board:name-mismatch", fmt.Sprintf("%s with the id text %q (number of board %d, name of board %d) returned content: %s",
-					entry, string(bboard(a.bid, a.nameBid)), a.bid, a.nameBid, desc)})
+				fails = append(fails, fail{"board:name-mismatch", fmt.Sprintf("%s with the id text %q (number of board %d, name of board %d; board table busy=%v) returned content: %s",
+					entry, string(bboard(a.bid, a.nameBid)), a.bid, a.nameBid, a.busy, desc)})
 			}
 		} else if res == "allow" {
 			if other, _ := boardFacts(a, a.nameBid).mayRead(); !other {
@@ -588,6 +633,25 @@ func execCall(kind, entry string, a callArgs) (out, label string, nontrivial boo
 		return out, label, true, fails
 	}
 	may := allow || f.administers()
+	if a.rawID != nil {
+		desc = fmt.Sprintf("user id %q, moderator string %q: ", cstrBytes(a.rawID), cstrBytes(a.rawBM)) + desc
+		label = "nlist:" + res + ":" + map[bool]string{true: "named", false: "not-named"}[a.name]
+		shown := res == "title" || res == "masked"
+		if entry == "LoadBoardSummary" {
+			shown = res == "title"
+		}
+		regular := validID(a.rawID) && wellFormedBM(a.rawBM)
+		if shown && !may && !regular {
+			// outside the theorem's hypotheses (ids are alphanumeric, moderator strings are ids and '/'): recorded, not judged
+			noteOnce("junk", "observation: is_uBM accepts any non-alphanumeric byte as a separator / an empty id: "+desc)
+			return out, label + ":irregular", true, fails
+		}
+		if !shown && a.name && !allow && !bit(a.ulevel, oBitBoard) {
+			// a named moderator the code does not recognise: the denial direction is outside "only when"; recorded
+			noteOnce("first-occurrence", "observation: a NAMED moderator is not recognised (is_uBM looks at the first occurrence of the id only): "+desc)
+			return out, label + ":unrecognised", true, fails
+		}
+	}
 	switch entry {
 	case "LoadBoardSummary":
 		// always answers; the title may only be there when the caller may see the board
@@ -622,6 +686,15 @@ func execCall(kind, entry string, a callArgs) (out, label string, nontrivial boo
 func boardFacts(a callArgs, bid ptttype.Bid) facts {
 	attr, blevel := boardNow(bid)
 	return facts{ulevel: a.ulevel, over18: a.over18, uid: int32(a.uid), attr: attr, blevel: blevel}
+}
+
+var noted = map[string]bool{}
+
+func noteOnce(class, what string) {
+	if !noted[class] {
+		noted[class] = true
+		run.Note(what)
+	}
 }
 
 var o2Noted = map[string]bool{}
